@@ -14,6 +14,42 @@ pub struct Case {
     pub sc: Scenario,
     /// how many times the main template is rendered per parser (1..3)
     pub renders: u8,
+    /// per partial (by position): 0 = source as printed, 1 = + "\n", 2 = + " \n\n", 3 = "\n" + source,
+    /// 4 = the empty source
+    #[serde(default)]
+    pub source_variant: Vec<u8>,
+    /// additional literal partial sources (name, source), e.g. `x` next to `x.liquid`
+    #[serde(default)]
+    pub extra_sources: Vec<(String, String)>,
+    /// literal main template source overriding the scenario's (used by the enumerated families)
+    #[serde(default)]
+    pub main_override: Option<String>,
+}
+
+impl Case {
+    fn sources(&self) -> Vec<(String, String)> {
+        let mut v: Vec<(String, String)> = self
+            .sc
+            .sources()
+            .into_iter()
+            .enumerate()
+            .map(|(i, (n, s))| {
+                let s = match self.source_variant.get(i).copied().unwrap_or(0) {
+                    1 => format!("{s}\n"),
+                    2 => format!("{s} \n\n"),
+                    3 => format!("\n{s}"),
+                    4 => String::new(),
+                    _ => s,
+                };
+                (n, s)
+            })
+            .collect();
+        v.extend(self.extra_sources.iter().cloned());
+        v
+    }
+    fn main_src(&self) -> String {
+        self.main_override.clone().unwrap_or_else(|| self.sc.main_src())
+    }
 }
 
 const OTHER: &str = "{% assign q = 'other' %}{{ q }}{% for i in (1..2) %}{% cycle 'a', 'b' %}{% endfor %}";
@@ -26,17 +62,18 @@ fn key(r: &lq::R<String>) -> Result<String, ()> {
 }
 
 /// results of rendering main `renders` times (interleaved with an unrelated template) per policy
-fn run_all(sc: &Scenario, renders: u8) -> Result<Vec<Vec<lq::R<String>>>, Failure> {
+fn run_all(c: &Case, sources: &[(String, String)], renders: u8) -> Result<Vec<Vec<lq::R<String>>>, Failure> {
     let mut out = Vec::new();
-    let sources = sc.sources();
+    let sc = &c.sc;
     let globals = sc.data.to_object();
+    let main_src = c.main_src();
     for policy in POLICIES {
-        let parser = match lq::parser_with_partials(policy, &sources) {
+        let parser = match lq::parser_with_partials(policy, sources) {
             Err(p) => return Err(Failure::new(format!("policies: building the parser panics ({policy:?}): {}", p.site()), p.what)),
             Ok(Err(e)) => return Err(Failure::new(format!("policies: building the parser fails because of a partial ({policy:?})"), format!("partials={sources:?} error={e}"))),
             Ok(Ok(p)) => p,
         };
-        let main = lq::parse(&parser, &sc.main_src());
+        let main = lq::parse(&parser, &main_src);
         let other = lq::parse(&parser, OTHER);
         let mut rs = Vec::new();
         for _ in 0..renders {
@@ -67,14 +104,18 @@ pub fn oracle(c: &Case, obs: &mut Obs) -> Check {
     }
     let bad = sc.partials.iter().any(|(_, d)| !matches!(d, PDef::Ok(_)));
     let (_, stats) = crate::progs::reference_run(sc);
-    if bad || stats.partial_calls >= 2 {
-        obs.nt(&(sc.main_src(), sc.sources(), sc.data.dump(), c.renders));
+    if bad || stats.partial_calls >= 2 || !c.extra_sources.is_empty() || c.source_variant.iter().any(|v| *v != 0) {
+        obs.nt(&(c.main_src(), c.sources(), sc.data.dump(), c.renders));
     }
     if bad {
         obs.class("has_bad_partial");
     }
-    let describe = || format!("main={:?}\n partials={:?}\n data={}", sc.main_src(), sc.sources(), sc.data.dump());
-    let all = run_all(sc, c.renders)?;
+    let sources = c.sources();
+    let describe = || format!("main={:?}\n partials={:?}\n data={}", c.main_src(), sources, sc.data.dump());
+    if !c.source_variant.is_empty() || !c.extra_sources.is_empty() {
+        obs.class("source_variants");
+    }
+    let all = run_all(c, &sources, c.renders)?;
     obs.extra_evals += (3 * c.renders as u64 * 2).saturating_sub(1);
     for (pi, rs) in all.iter().enumerate() {
         for r in rs {
@@ -99,13 +140,8 @@ pub fn oracle(c: &Case, obs: &mut Obs) -> Check {
     // (iii) paths that do not reach a bad partial are unaffected: same scenario with the broken
     // partials removed from the source behaves identically
     if sc.partials.iter().any(|(_, d)| matches!(d, PDef::Broken)) {
-        let mut sc2 = sc.clone();
-        for (_, d) in sc2.partials.iter_mut() {
-            if matches!(d, PDef::Broken) {
-                *d = PDef::Missing;
-            }
-        }
-        let all2 = run_all(&sc2, 1)?;
+        let sources2: Vec<(String, String)> = sources.iter().filter(|(_, s)| !s.starts_with(crate::progs::BROKEN_SRC)).cloned().collect();
+        let all2 = run_all(c, &sources2, 1)?;
         obs.extra_evals += 6;
         for pi in 0..3 {
             if key(&all2[pi][0]) != eager {
@@ -116,7 +152,7 @@ pub fn oracle(c: &Case, obs: &mut Obs) -> Check {
             }
         }
     }
-    obs.sample_with(|| json!({"main": sc.main_src(), "partials": sc.sources(), "data": sc.data.dump(), "renders": c.renders, "result": lq::show(&all[0][0])}));
+    obs.sample_with(|| json!({"main": c.main_src(), "partials": sources, "data": sc.data.dump(), "renders": c.renders, "result": lq::show(&all[0][0])}));
     match eager {
         Ok(_) => obs.class("renders_ok"),
         Err(_) => obs.class("renders_err"),
@@ -125,12 +161,50 @@ pub fn oracle(c: &Case, obs: &mut Obs) -> Check {
 }
 
 fn fixed() -> Vec<Case> {
-    c08::enumerated_scenarios().into_iter().map(|sc| Case { sc, renders: 2 }).collect()
+    let mut v = Vec::new();
+    for sc in c08::enumerated_scenarios() {
+        for variant in 0u8..5 {
+            v.push(Case { sc: sc.clone(), renders: 2, source_variant: vec![variant; 3], extra_sources: vec![], main_override: None });
+        }
+    }
+    v
+}
+
+/// Names with and without the `.liquid` suffix the render tag falls back to: every sequence of
+/// 1..3 calls over {include x, render x, include x.liquid, render x.liquid} x which of the two
+/// sources exist x trailing-newline variants.
+fn dot_liquid() -> Vec<Case> {
+    let calls = ["{% include 'x' k: 1 %}", "{% render 'x', k: 1 %}", "{% include 'x.liquid' k: 1 %}", "{% render 'x.liquid', k: 1 %}"];
+    let empty = Scenario { main: vec![], partials: vec![], data: crate::rv::obj(vec![]) };
+    let mut v = Vec::new();
+    for presence in 1u8..4 {
+        for nl in [false, true] {
+            let tail = if nl { "\n" } else { "" };
+            let mut extra = Vec::new();
+            if presence & 1 != 0 {
+                extra.push(("x".to_string(), format!("[plain {{{{ k }}}}]{tail}")));
+            }
+            if presence & 2 != 0 {
+                extra.push(("x.liquid".to_string(), format!("[ext {{{{ k }}}}]{tail}")));
+            }
+            for len in 1..=3usize {
+                for code in 0..4usize.pow(len as u32) {
+                    let main: String = (0..len).map(|j| format!("<{}>", calls[code / 4usize.pow(j as u32) % 4])).collect();
+                    v.push(Case { sc: empty.clone(), renders: 2, source_variant: vec![], extra_sources: extra.clone(), main_override: Some(main) });
+                }
+            }
+        }
+    }
+    v
 }
 
 pub fn run(ctx: &Ctx) {
-    ctx.set_rule("All scenarios of the C08 generator (a main template and up to three partials that are valid, syntactically broken or absent; literal and dynamic partial names; executed and dead paths; every include/render form) plus the C08 enumerated call-form family; each scenario builds three parsers (eager, lazy, on-demand compilation over the in-memory source) and renders the main template 1..3 times on each, interleaved with an unrelated template. Oracle: build succeeds under every policy; every render has the same Ok/Err status and the same output under the three policies; the n-th render equals the first; replacing a broken partial by an absent one changes nothing; the unrelated template is unaffected. Non-trivial = a broken or absent partial exists, or partials are executed >= 2 times; distinct by scenario.");
+    ctx.set_rule("All scenarios of the C08 generator (a main template and up to three partials that are valid, syntactically broken or absent; literal and dynamic partial names; executed and dead paths; every include/render form) plus the C08 enumerated call-form family; each scenario builds three parsers (eager, lazy, on-demand compilation over the in-memory source) and renders the main template 1..3 times on each, interleaved with an unrelated template. Oracle: build succeeds under every policy; every render has the same Ok/Err status and the same output under the three policies; the n-th render equals the first; replacing a broken partial by an absent one changes nothing; the unrelated template is unaffected. Partial sources are also varied literally (trailing / leading newline, the empty source) and a family of names with and without the `.liquid` suffix (x, x.liquid, both) is enumerated for every sequence of <= 3 include/render calls. Non-trivial = a broken or absent partial exists, or partials are executed >= 2 times; distinct by scenario.");
     ctx.assume("error message texts are not compared across policies (eager and lazy word 'unknown partial' differently)");
     ctx.cases("call_forms", fixed(), oracle);
-    ctx.random("scenarios", ctx.pick(20_000, 500_000), || (c08::scenario(), 1u8..=3).prop_map(|(sc, renders)| Case { sc, renders }), oracle);
+    ctx.cases("dot_liquid_names", dot_liquid(), oracle);
+    ctx.random("scenarios", ctx.pick(20_000, 500_000), || {
+        (c08::scenario(), 1u8..=3, proptest::collection::vec(prop_oneof![4 => Just(0u8), 1 => 1u8..5], 3))
+            .prop_map(|(sc, renders, source_variant)| Case { sc, renders, source_variant, extra_sources: vec![], main_override: None })
+    }, oracle);
 }
